@@ -291,6 +291,9 @@ func init() {
 		if !ok1 || !ok2 {
 			return nil, ierr("split needs strings")
 		}
+		if sep == "" && !utf8.ValidString(s) {
+			return nil, unsup("splitting invalid UTF-8 into characters")
+		}
 		return splitStr(s, sep), nil
 	})
 	reg("ascii_downcase/0", func(in any, _ []any) (any, error) {
